@@ -244,4 +244,25 @@ set_option maxRecDepth 20000 in
 example : addToInstruction exPda exFetch exIx exStored exT =
     .ok ⟨exK 3, [⟨exK 7, false, false⟩, ⟨exK 8, true, true⟩, ⟨exK 7, false, false⟩, ⟨exK 9, false, true⟩], [5, 5]⟩ := by decide
 
+/-- **Lockstep after any outcome.**  Whether `add_to_cpi_instruction`'s loop succeeds or stops
+    with an error (unresolvable config, key missing from the pool), what it leaves behind is the
+    untouched pre-existing metas and infos followed by equally many appended metas and infos with
+    pairwise equal keys: a caller that handles the error never holds a meta without its info. -/
+theorem C08_lockstep_any_outcome (ixd prog : Bytes) (pool : List Info) (cfgs : List Meta)
+    (infos : List Info) (metas : List AccountMeta) :
+    ∃ app appI, (addCpiLoopT pda ixd prog pool cfgs infos metas).1 = (metas ++ app, infos ++ appI) ∧
+      appI.map (·.key) = app.map (·.key) ∧ app.length ≤ cfgs.length := by
+  obtain ⟨k, app, appI, hk, e1, e2, e3⟩ := C06_after_error_cpi pda ixd prog pool cfgs infos metas
+  refine ⟨app, appI, e1, e3, ?_⟩
+  have := e2.1
+  simp only [List.length_take] at this
+  omega
+
+/-- the traced loop is the loop: same status, same result on success -/
+theorem C08_trace_agrees (ixd prog : Bytes) (pool : List Info) (cfgs : List Meta)
+    (infos : List Info) (metas : List AccountMeta) :
+    (addCpiLoopT pda ixd prog pool cfgs infos metas).2 = (addCpiLoop pda ixd prog pool cfgs infos metas).map (fun _ => ()) ∧
+    ∀ r, addCpiLoop pda ixd prog pool cfgs infos metas = .ok r → (addCpiLoopT pda ixd prog pool cfgs infos metas).1 = r :=
+  addCpiLoopT_agrees pda ixd prog pool cfgs infos metas
+
 end C08
